@@ -78,4 +78,15 @@ REG.update({
         "components": S5_COMPONENTS,
         "assumptions": ["hash-keyed records (trie nodes) that happen to start with a scanned prefix are excluded from the image"],
     },
+    "C11": {
+        "level": "fault_enumeration",
+        "tests": [{"pkg": "./chainsim", "run": "TestC11", "quick": 320, "thorough": 30000, "chunk": 20}],
+        "rule": S5_RULE + ("S6: after the prologue all three disks of the node record one global write-op log (every direct put/delete and every batch commit as one atomic group, in issue order across prime/region/zone). "
+                 "After the history, the process is crashed at 1..5 drawn prefixes of that log (every other one snapped to -2..+2 writes around a multi-op zone batch, preferring the block batch that mutates UTXO/lockup records); "
+                 "the node is restarted on the surviving images of all three disks. Oracles per image: restart returns without error/panic; the reported head has state and its UTXORoot/size equal the stored ut+cl records; "
+                 "re-delivering the original chain (with append-queue ticks) appends every block and the final chain state equals the uncrashed node's. Evaluations = histories; crash images are counted in counters."),
+        "expect_probes": ["crash_between-writes", "crash_right-after-zone-batch", "crash_right-after-utxo-mutating-block-batch", "history_has_utxo_mutating_batch"],
+        "components": S5_COMPONENTS,
+        "assumptions": ["batches are atomic (engine contract); a crash loses a suffix of the write log, never reorders it", "crash points are sampled per history, not enumerated exhaustively"],
+    },
 })
